@@ -1173,8 +1173,8 @@ def A64_generic(obj, sf, hw, imm16, Rd):
 @ispec("32[ b5 011011 0 b40(5) imm14(14) Rt(5) ]", mnemonic="TBZ")
 def A64_generic(obj, b5, b40, imm14, Rt):
     obj.datasize = 64 if b5 == 1 else 32
-    obj.bitpos = b5 << 5 + b40
+    obj.bitpos = (b5 << 5) + b40
     obj.offset = env.cst(imm14 << 2, 16).signextend(64)
     obj.t = sp2z(env.Xregs[Rt]) if b5 == 1 else sp2z(env.Wregs[Rt])
-    obj.operands = [obj.t, obj.bitpos, obj.offset]
+    obj.operands = [obj.t, env.cst(obj.bitpos, 6), obj.offset]
     obj.type = type_data_processing
